@@ -79,6 +79,11 @@ theorem ensure_order : ensureChainConsistencyCalls =
     ["hashDB.Get([]byte(addBlockMark))", "remove", "eraseAddBlockMark",
      "hashDB.Get([]byte(removeBlockMark))", "remove", "eraseRemoveBlockMark"] := by decide
 
+/-- The LRU capacities the model assumes are the ones `initBlockChain` creates the caches with. -/
+theorem cache_capacities :
+    cacheCaps = [("topBlocks", "100"), ("futureBlocks", "100"), ("verifiedBlocks", toString verifiedCap),
+                 ("verifiedBodyCache", "10")] ∧ toString topBlocksCacheSize = "100" := by decide
+
 def allowedCallers (callee : String) : List String :=
   if callee = "blockChain.insertBlock" then ["blockChain.addBlockOnChain"]
   else if callee = "blockChain.remove" then ["blockChain.removeFromCommonAncestor", "blockChain.ensureChainConsistency"]
